@@ -1053,3 +1053,41 @@ func fullSliceLoop(p *Prog, in ssa.Instruction, elem *ssa.IndexAddr, isSlice fun
 func isOnlyInstr(in ssa.Instruction) func(ssa.Instruction) bool {
 	return func(x ssa.Instruction) bool { return x == in }
 }
+
+// earlyExitLoops lists the index loops `for i := range S` (S satisfying isSlice) of fn that can be left
+// before i reaches len(S) (break / return inside the body). Returns the offending exit instructions.
+func earlyExitLoops(fn *ssa.Function, isSlice func(ssa.Value) bool) (loops int, exits []ssa.Instruction) {
+	for _, b := range fn.Blocks {
+		if len(b.Instrs) == 0 {
+			continue
+		}
+		ifi, ok := b.Instrs[len(b.Instrs)-1].(*ssa.If)
+		if !ok {
+			continue
+		}
+		bo, ok := ifi.Cond.(*ssa.BinOp)
+		if !ok || bo.Op != token.LSS {
+			continue
+		}
+		ln, ok := bo.Y.(*ssa.Call)
+		if !ok {
+			continue
+		}
+		if bi, ok := ln.Common().Value.(*ssa.Builtin); !ok || bi.Name() != "len" || !isSlice(stripConv(ln.Common().Args[0])) {
+			continue
+		}
+		loop := loopBlocks(b)
+		if !loop[b] {
+			continue
+		}
+		loops++
+		for x := range loop {
+			for k, s := range x.Succs {
+				if !loop[s] && !(x == b && k == 1) {
+					exits = append(exits, x.Instrs[len(x.Instrs)-1])
+				}
+			}
+		}
+	}
+	return loops, exits
+}
